@@ -134,14 +134,16 @@ def run(ctx):
                   "the scan does not examine the king of the side that moves next on the (unchanged) placement: owner %s board %s"
                   % (sym.show(sc.owner)[:60] if sc.owner else None, sym.show(sc.board)[:60] if sc.board else None), where)
         pin_name = [t for (g, t, pp, pt) in L.templates if g == "pinned"][0][2]
-        pre = {k: v for k, v in sc.pre.items() if k.endswith("." + pin_name)}
-        ctx.check(len(pre) == 1 and list(pre.values())[0] == ("bbconst", 0), "scan:pinned-reset",
-                  "the pinned set is not reset to empty before the scan accumulates into it: %s" % {k: sym.show(v)[:60] for k, v in pre.items()}, where,
+        # the accumulator (a field of the new board or a local that is stored into it afterwards) starts empty ...
+        init = scan.acc_initial(sc, pa)
+        ctx.check(init == ("bbconst", 0), "scan:pinned-reset",
+                  "the pinned set is not reset to empty before the scan accumulates into it: %s" % (sym.show(init)[:60] if init else None), where,
                   sample={"pre-loop pinned": "EMPTY"})
-        ctx.check(pa is not None and pa.endswith("." + pin_name), "scan:accumulates-into-result", "pins are not accumulated into the returned board's pinned set (%s)" % pa, where)
-        # the returned board's pinned is the accumulator
+        # ... and its value after the loop is the returned board's pinned set
+        okr = bool(some_paths) and pa is not None
         for p in some_paths:
             bd = dict(p.ret[4])["0"]
             pv = dict(bd[4]).get(pin_name) if bd[0] == "agg" else None
-            ctx.check(pv is not None and pv[0] == "hv", "scan:result-after-loop", "the returned pinned set is not the scan's result", where)
+            okr = okr and scan.is_acc_result(sc, pa, pv)
+        ctx.check(okr, "scan:accumulates-into-result", "the returned board's pinned set is not the set the scan accumulated (%s)" % pa, where)
     ctx.assumptions += ["the hash of the result is kept in step by the writers (C10)", "old half-move clock within 0..=100 (C06 gate, preserved by C02/C14)"]
